@@ -317,6 +317,9 @@ func (c *SimConn) String() string {
 
 func (c *SimConn) Read(b []byte) (int, error) {
 	ssched.Yield()
+	if t := ssched.CurrentTask(); t != nil && t.Cur == nil {
+		t.Cur = c // the task that reads a connection is that connection's handler
+	}
 	if len(b) == 0 {
 		return 0, nil
 	}
